@@ -23,8 +23,11 @@ PROPS["C15"] = dict(
     out_kind=_c15_out_kind,
     trusted=[
         "Model/Tablets.lean transcribes tablets.rs:66-122 (payload), 135-169, 252-324, 369-469, 523-538, 598-662 and core::slice::binary_search_by/partition_point of the toolchain's std (1.95: fixed-iteration base/size loop)",
-        "Model/TabletsRefresh.lean transcribes cluster/state.rs:273-341 (calculate_new_topology: which Node objects are kept / re-created), 375-406 (perform_tablets_maintenance: removed and re-created hosts from old vs new known_nodes), 205-270 (new / new_updated), 647-675 (update_tablets: the loop over ONE batch in order, translator over known_nodes built once)",
+        "Model/TabletsRefresh.lean transcribes cluster/state.rs:273-341 (calculate_new_topology: which Node objects are kept / re-created), 375-406 (perform_tablets_maintenance: removed and re-created hosts from old vs new known_nodes), 205-270 (new / new_updated / new_with_updated_topology), 647-675 (update_tablets: the loop over ONE batch in order, translator over known_nodes built once)",
         "the hook's nodes are pool-less and rejected by the host filter, so only the `(false, _)` arms of calculate_new_topology's match are driven against the code (the enabled arms are modelled and covered by the theorems, not by the differential run); a node's address is its position in the peer list",
+        "materialized views: tablets.rs 609-613 (`tables.contains_key || views.contains_key`) and 623 (`.chain(ks.views.keys())`) are modelled as membership in / iteration over `tables ++ views` (KsMeta.entry, Info.maintenanceKs; maintenanceKs_entry_iff) and driven with tables and views apart at TabletsInfo level (info_maintenance_with_views) and through the real ClusterState (cluster_refresh_with_views)",
+        "new_with_updated_topology (state.rs:242-270) = refresh with the keyspaces of the previous state (refreshTopology), driven by the `N` op through cluster_refresh_topology; the tablet branch of ReplicaLocator::replicas_for_token (locator/mod.rs:111-124) is Model/TabletsRefresh.lean locatorTabletReplicas (the vnode fallback for tables outside the tablet map is not this property: printed as `notable`)",
+        "learnBatch keeps folding after a panicking add_tablet while the Rust loop is unwound: unreachable for non-empty ranges (learnBatch_no_panic, infoInv_brun); learn_batch_eq_foldl is an unfolding of the model's definition - that the Rust loop processes every item in order without skipping repeated keys is checked by the `B` cases of the differential run only",
         "Vec::drain(left..right) with left > right panics before mutating (only reachable with an ill-formed tablet first > last, which from_custom_payload never produces); the model's add returns `none` there and the driver prints `panic`",
     ],
     assumptions=[
